@@ -186,7 +186,7 @@ Proof.
   rewrite Hnd, Ep in Hskip. cbn [orb negb] in Hskip.
   assert (Hlen16 : blen (r_val x) = 16) by (rewrite Ex; reflexivity).
   rewrite Hlen16, Hdp, Hb, N.eqb_refl in Hskip. cbn [N.eqb negb] in Hskip.
-  unfold ptr_leb in Hskip. rewrite Hf, Eo, N.ltb_irrefl, N.eqb_refl in Hskip. cbn [orb andb] in Hskip. rewrite N.ltb_irrefl in Hskip. cbn in Hskip. discriminate.
+  unfold ptr_here in Hskip. rewrite Hf, Eo, !N.eqb_refl in Hskip. cbn in Hskip. discriminate.
 Qed.
 
 (** the hypotheses of the two theorems are satisfiable *)
@@ -598,6 +598,52 @@ Example gc_unique_hyp_ex :
   gc_decide 0 (vrun w_cfg (init_db w_cfg 1) u_ops) 0 0 3 = Some [w_rec x61 1 (repeat x31 200) 0 3] /\
   gobs (db_get (fst (rewrite w_cfg 0 (vrun w_cfg (init_db w_cfg 1) u_ops) 0 0 3)) (w_key x61) max_ver) = OVal (repeat x32 200) 0.
 Proof. vm_compute. repeat split. Qed.
+
+(** * The routed model (hot/cold buckets) with the static route is the proved model *)
+Definition static_route (c : cfg) (batch : list rec) : list (rec * N) :=
+  map (fun r => (r, bucket_of c (r_key r))) batch.
+
+Lemma group_r_static c bk batch : group_r c bk (static_route c batch) = group c bk batch.
+Proof.
+  unfold group_r, group, static_route. induction batch as [|r b IH]; cbn [map filter]; [reflexivity|].
+  cbn [fst snd]. destruct (is_big c r && (bucket_of c (r_key r) =? bk)); cbn [map fst]; now rewrite IH.
+Qed.
+
+Lemma write_buckets_r_static c batch : forall vl bk,
+  write_buckets_r c bk vl (static_route c batch) = write_buckets c bk vl batch.
+Proof.
+  induction vl as [|b vl IH]; intro bk; cbn [write_buckets_r write_buckets]; [reflexivity|].
+  now rewrite group_r_static, IH.
+Qed.
+
+Lemma lsm_entries_r_static c : forall batch pss,
+  lsm_entries_r c (static_route c batch) pss = lsm_entries c batch pss.
+Proof.
+  induction batch as [|r b IH]; intro pss; cbn [static_route map lsm_entries_r lsm_entries]; [reflexivity|].
+  fold (static_route c b). destruct (is_big c r).
+  - destruct (pop_nth (N.to_nat (bucket_of c (r_key r))) pss) as [o pss']. now rewrite IH.
+  - now rewrite IH.
+Qed.
+
+Theorem db_write_r_static c d batch : db_write_r c d (static_route c batch) = db_write c d batch.
+Proof.
+  unfold db_write_r, db_write. rewrite write_buckets_r_static.
+  destruct (write_buckets c 0 (d_vl d) batch) as [vl' pss]. now rewrite lsm_entries_r_static.
+Qed.
+
+Theorem rewrite_r_static c now d bk fid nseq : rewrite_r c now d bk fid nseq [] = rewrite c now d bk fid nseq.
+Proof.
+  unfold rewrite_r, rewrite. destruct (gc_decide now d bk fid nseq) as [wb|]; [|reflexivity].
+  destruct (62 <? N.of_nat (length wb)); [reflexivity|]. unfold gc_finish_r, gc_finish.
+  destruct wb as [|r wb']; [reflexivity|]. f_equal.
+  change (map (fun r0 => (r0, route_of c [] r0)) (r :: wb')) with (static_route c (r :: wb')).
+  apply db_write_r_static.
+Qed.
+
+Lemma routed_model_static c d batch now bk fid nseq :
+  db_write_r c d (static_route c batch) = db_write c d batch /\
+  rewrite_r c now d bk fid nseq [] = rewrite c now d bk fid nseq.
+Proof. split; [apply db_write_r_static | apply rewrite_r_static]. Qed.
 
 (** * The statements exported to Properties/C08.v *)
 Theorem gc_preserves_reads_refuted :
